@@ -202,18 +202,27 @@ def ownerIs (c : PCtx) (parentType loc : String) (f : Sel) : Bool :=
   | .ok u => u == loc
   | .error _ => false
 
+/-- one iteration of the loop over `GetURLs()` in the root branch of `routeSelectionSet` -/
+def routeStep (c : PCtx) (others : List Sel) (parentType : String) (acc : List (String × List Sel)) (loc : String) :
+    G (List (String × List Sel)) :=
+  match filterByLoc c others loc parentType with
+  | none => .error (.err "could not find location (root)")
+  | some [] => .ok acc
+  | some ss => .ok (acc ++ [(loc, ss)])
+
+/-- the internal pseudo-service gets the builtin names (errors ignored) -/
+def routeInternal (c : PCtx) (others : List Sel) (parentType : String) (base : List (String × List Sel)) :
+    List (String × List Sel) :=
+  match filterByLoc c others internalService parentType with
+  | some (x :: xs) => base ++ [(internalService, x :: xs)]
+  | _ => base
+
 /-- the non-`node` part of the root branch of `routeSelectionSet`: per service (in `GetURLs()`
     order) the root fields it owns, then the internal pseudo-service for builtin names -/
 def routeRoot (c : PCtx) (others : List Sel) (parentType : String) : G (List (String × List Sel)) :=
   if others.isEmpty then .ok [] else do
-    let base ← c.tum.urls.foldlM (fun (acc : List (String × List Sel)) loc =>
-      match filterByLoc c others loc parentType with
-      | none => (.error (.err "could not find location (root)") : G _)
-      | some [] => .ok acc
-      | some ss => .ok (acc ++ [(loc, ss)])) []
-    match filterByLoc c others internalService parentType with
-    | some (x :: xs) => .ok (base ++ [(internalService, x :: xs)])
-    | _ => .ok base
+    let base ← c.tum.urls.foldlM (routeStep c others parentType) []
+    .ok (routeInternal c others parentType base)
 
 /-- root branch of `routeSelectionSet` + `createQueryPlanSteps` at the root -/
 def planRoot (c : PCtx) (sanitised : List Sel) : G (List Step) := do
